@@ -1267,7 +1267,11 @@ func (e *Entry) ApplyDeviate(deviateOpts ...DeviateOpt) []error {
 						case dp.RPC != nil && dp.RPC.Output == deviatedNode:
 							dp.RPC.Output = nil
 						default:
-							dp.delete(deviatedNode.Name)
+							// (an earlier not-supported for the same
+							// target has removed it already)
+							if dp.Dir[deviatedNode.Name] == deviatedNode {
+								dp.delete(deviatedNode.Name)
+							}
 						}
 					}
 				case DeviationDelete:
